@@ -445,3 +445,12 @@ func RenderConflicts(cs []*core.Conflict) string {
 	sort.Strings(s)
 	return "[" + strings.Join(s, " ") + "]"
 }
+
+// RenderChangesOrdered renders a change list in its own order.
+func RenderChangesOrdered(cs []*core.Change) string {
+	s := make([]string, len(cs))
+	for i, c := range cs {
+		s[i] = RenderChange(c)
+	}
+	return "[" + strings.Join(s, " ") + "]"
+}
